@@ -360,7 +360,15 @@ impl BlockWrite for RollingWriter {
                         self.directory.files.inc(&self.file_number).ok_or_else(|| {
                             io::Error::new(io::ErrorKind::Other, "wal file number overflow")
                         })?;
-                    let file = create_file(&self.directory.dir, &next_file_number)?;
+                    let file = match create_file(&self.directory.dir, &next_file_number) {
+                        Ok(file) => file,
+                        Err(io_err) => {
+                            // The file does not exist: a later attempt must try to create it
+                            // again, not open whatever else sits at that path.
+                            self.directory.files.forget(next_file_number);
+                            return Err(io_err);
+                        }
+                    };
                     (next_file_number, file)
                 };
 
